@@ -1,8 +1,9 @@
 #!/bin/bash
 # benign_run.sh <id>... : run every quick check against each behaviour-preserving change /verif/seeded/<id>/patch.diff
 # (scratch worktree, /repo untouched); any rc != 0 is a false alarm to investigate
+OUT=${BENIGN_OUT:-/verif/seeded/benign_results}; mkdir -p $OUT
 ALL="C01 C02 C03 C04 C05 C06 C07 C08 C09 C10 C11 C12 C13 C14 C15 C16 C17 C18 C19 C20"
 for id in "$@"; do
-  /verif/seedtool.sh runcopy $id $ALL > /tmp/t1/benign/$id.log 2>&1
-  echo "$id: $(grep -c 'rc=0 ' /tmp/t1/benign/$id.log) ok, $(grep -vc 'rc=0 ' /tmp/t1/benign/$id.log) not ok"
+  /verif/seedtool.sh runcopy $id $ALL > $OUT/$id.log 2>&1
+  echo "$id: $(grep -c 'rc=0 ' $OUT/$id.log) ok, $(grep -vc 'rc=0 ' $OUT/$id.log) not ok"
 done
